@@ -44,6 +44,7 @@ const (
 	OpContains     = 17
 	OpFooter       = 20
 	OpLayout       = 21
+	OpContainer    = 22
 )
 
 const ErrMark = 4294967294
@@ -197,6 +198,9 @@ func (o *Op) Encode(w *W) {
 		w.Str(o.F)
 		w.Bytes(o.T)
 	case OpFooter:
+		w.Num(uint64(o.Slot))
+		w.Bytes(o.File)
+	case OpContainer:
 		w.Num(uint64(o.Slot))
 		w.Bytes(o.File)
 	case OpLayout:
@@ -516,6 +520,8 @@ func (in *Interp) RunOp(o *Op) (out W) {
 		return in.footerOp(o)
 	case OpLayout:
 		return in.layoutOp(o)
+	case OpContainer:
+		return in.containerOp(o)
 	default:
 		panic("unknown op")
 	}
@@ -949,5 +955,38 @@ func (in *Interp) layoutOp(o *Op) (out W) {
 	}
 	out.Nums(l.StoredOffsets)
 	out.Num(1) // the model's consistency flag: every field with doc-value entries has a doc-value section
+	return out
+}
+
+// containerOp hands the real bytes of a persisted file to the byte-exact (L0)
+// loader models of Container.v and reports what the pinned loader read from the
+// same bytes: fields section, stored trailer and index, doc-value locations.
+func (in *Interp) containerOp(o *Op) (out W) {
+	b, err := in.Persist(in.Segs[o.Slot])
+	if err != nil {
+		in.fail("", "WriteTo failed: %v", err)
+		return W{ErrMark, 1}
+	}
+	o.File = b
+	c, err := refice.VerifContainer(b)
+	if err != nil {
+		in.fail("C04", "the pinned loader cannot read the file: %v", err)
+		return W{ErrMark, 1}
+	}
+	out.Num(uint64(len(c.Names)))
+	for i := range c.Names {
+		out.Num(c.DictLocs[i])
+		out.Str(c.Names[i])
+		out.Num(c.Docs[i])
+		out.Num(c.Freqs[i])
+	}
+	out.Nums(c.StoredChunkOffsets)
+	out.Nums(c.DocOffsets)
+	out.Num(uint64(len(c.DvLocs)))
+	for _, l := range c.DvLocs {
+		out.Num(l[0])
+		out.Num(l[1])
+	}
+	in.Touched["container_checked"]++
 	return out
 }
